@@ -193,6 +193,19 @@ Fixpoint ok_log (done : list job) (l : list dev) : bool :=
   match l with
   | [] => true
   | EStart j _ :: l' => negb (job_in j done) && ok_log done l'
-  | EFinish j true :: l' => ok_log (j :: done) l'
+  | EFinish j true :: l' => ok_log (done ++ [j]) l'
   | EFinish j false :: l' => ok_log done l'
   end.
+
+(* jobs that returned nil, in order *)
+Fixpoint done_of (l : list dev) : list job :=
+  match l with
+  | [] => []
+  | EFinish j true :: l' => j :: done_of l'
+  | _ :: l' => done_of l'
+  end.
+
+Definition count_starts (l : list dev) : nat :=
+  length (filter (fun e => match e with EStart _ _ => true | _ => false end) l).
+Definition count_failures (l : list dev) : nat :=
+  length (filter (fun e => match e with EFinish _ false => true | _ => false end) l).
